@@ -22,6 +22,9 @@ type c01Case struct {
 	Ops        []string `json:"ops"`
 	Partitions int      `json:"partitions"`
 	Depth2     bool     `json:"depth2"`
+	// SplitImages: every worker runs the history and recovers only its share of the crash images (long histories)
+	SplitImages bool `json:"split_images"`
+	Rotation    bool `json:"rotation"` // needs the binary built with the tiny WAL file size (see c01.py)
 }
 
 func (c c01Case) key() string {
@@ -112,9 +115,12 @@ func c01History(rep *kit.Report, scratch string, c c01Case) {
 	rep.Count("mutations", int64(rec.nMut))
 	rep.Count("torn_points", int64(rec.nTorn))
 	rep.Count("duplicate_images_skipped", int64(rec.nDup))
-	for _, im := range rec.images {
+	for i, im := range rec.images {
 		if rep.Expired() {
 			return
+		}
+		if c.SplitImages && kit.ReplayPath() == "" && !kit.Mine(i) {
+			continue
 		}
 		c01Recover(rep, c, im, models, opKinds, work, 1)
 	}
@@ -321,8 +327,35 @@ func TestVerifC01(t *testing.T) {
 		return
 	}
 	ops := c01Alphabet()
-	type job struct {
-		c c01Case
+	if kit.Getenv("VERIF_C01_MODE", "") == "rotation" {
+		// The binary was built with DefaultFileSize shrunk to a few bytes: every WAL record starts a new log file, so
+		// a partition holds many live files (1.wal ... 22.wal) without any flush - the roll-over and restore-order paths.
+		if DefaultFileSize > 1024 {
+			t.Fatalf("rotation mode needs the shrunk DefaultFileSize, have %d", DefaultFileSize)
+		}
+		long := func(n int) []string {
+			h := make([]string, n)
+			for i := range h {
+				h[i] = []string{"Wa", "Wc"}[i%2]
+			}
+			return h
+		}
+		jobs := []c01Case{
+			{Ops: long(22), Partitions: 1, SplitImages: true, Rotation: true},
+			{Ops: append(append(long(11), "F"), long(11)...), Partitions: 1, SplitImages: true, Rotation: true},
+		}
+		if kit.Thorough() {
+			jobs = append(jobs, c01Case{Ops: long(24), Partitions: 2, SplitImages: true, Rotation: true},
+				c01Case{Ops: append(append(long(3), "We", "Wd"), long(20)...), Partitions: 1, SplitImages: true, Rotation: true})
+		}
+		rep.Note("rotation mode: DefaultFileSize=%d, %d long histories, crash images split over the workers", DefaultFileSize, len(jobs))
+		for _, c := range jobs {
+			if rep.Expired() {
+				return
+			}
+			c01History(rep, scratch, c)
+		}
+		return
 	}
 	var jobs []c01Case
 	add := func(names []string, n int, d2 bool) {
